@@ -26,7 +26,7 @@ BAD_PPNUM = re.compile(r"^\.?\d")
 def odd_number(tok):
     if not BAD_PPNUM.match(tok):
         return False
-    return not re.fullmatch(r"\d+|\d+\.\d+", tok)
+    return not re.fullmatch(r"0|[1-9]\d*|\d+\.\d+", tok)       # also 00 / 01 from pasting digits: parse_file -E prints the value
 
 
 def squeeze_literals(toks):
@@ -59,7 +59,7 @@ def run(ck):
                "parenthesised-comma arguments, #, ##, __VA_ARGS__, ', ## __VA_ARGS__', __VA_OPT__, #undef + redefinition, push_macro/pop_macro, literals with "
                "quotes and escapes — through parse_file -E and gcc -E -P, token by token; the # operator additionally against the Lean model; distinct = distinct program")
     try:
-        per_mode = 60 if quick else 4000
+        per_mode = 60 if quick else 1500
         for mode, allow in MODES:
             done = 0
             tries = 0
@@ -84,6 +84,12 @@ def run(ck):
                 if a == b:
                     continue
                 feats = "+".join(sorted(p.features))
+                names = set(re.findall(r"^#define (\w+)", text, re.M))
+                if any(t in names for t in a):
+                    # gcc left a macro name unexpanded (it was exempt from expansion when it was produced): interrogate keeps no hide sets
+                    ck.violation("known:blue-paint", "a macro name that gcc leaves unexpanded (exempt from re-expansion) is expanded later by interrogate",
+                                 {"m.h": text}, "gcc:\n%s\nparse_file -E:\n%s\n" % (gout, rout))
+                    continue
                 if squeeze_literals(a) == squeeze_literals(b):
                     ck.violation("known:stringify-respacing", "the text produced by # differs from gcc's only in white space next to parentheses/commas (argument came out of another expansion or is __VA_ARGS__)",
                                  {"m.h": text}, "gcc:\n%s\nparse_file -E:\n%s\n" % (gout, rout))
